@@ -1,11 +1,23 @@
 # Registry: which jobs decide which property, plus the per-property texts that go into the evidence.
 import importlib
 
-MODULES = ["jobs_coeffs", "jobs_vec", "jobs_rot", "jobs_conv", "jobs_q120", "jobs_reim4"]
+MODULES = ["jobs_coeffs", "jobs_vec", "jobs_rot", "jobs_conv", "jobs_q120", "jobs_reim4", "jobs_static"]
 
-CLAIMED = ["C05", "C07", "C08", "C09", "C10", "C13", "C14", "C17", "C11", "C18"]
+CLAIMED = ["C05", "C07", "C08", "C09", "C10", "C12", "C13", "C14", "C15", "C17", "C11", "C18"]
 LEVEL = {"C12": "other", "C15": "other"}
-EXPLAIN = {}
+EXPLAIN = {
+    "C12": "Contracts cannot quantify over schedules. Decided here: the PREMISES of the standard non-interference argument. (1) proof: in the "
+           "contract runs tagged C12 the MODULE and all tables are is_fresh objects outside every assigns clause, so no module-level function "
+           "writes them; (2) static facts (tools/static_inventory.py, goto symbol table + call graph of the current sources): the only non-const "
+           "objects with static storage are the documented *_simple caches, and no module-level / table-based entry point reaches a function that "
+           "touches one. The step from these premises to 'no data race, same result as when run alone' is the usual paper argument and is NOT "
+           "mechanised; no thread interleaving is explored.",
+    "C15": "Decided here: (1) proof (runs of C05/C08/C09/C14/C17 tagged C15): outputs are determined by the inputs alone -- output and scratch objects "
+           "start nondeterministic and unaligned and the post fixes every output cell as a function of the inputs; (2) static facts: inventory of "
+           "static-lifetime state (same tool as C12) and the cache-key table of the *_simple functions (static_allow.json, derived by reading the "
+           "code; the set of caches itself is checked mechanically). Not decided: bit-identical repeatability of the float FFT/NTT pipelines, "
+           "arbitrary call histories (no sequence is enumerated), alignment effects inside assembly kernels.",
+}
 
 _cache = None
 
